@@ -436,3 +436,17 @@ CORPUS += [
     V("C18", "eq-gaussian-mixture-half-slack", _DU9, "            coords + (1 - coords.max(dim=1, keepdim=True).values) / 2", "            coords + 0.5 * (1 - coords.max(dim=1, keepdim=True).values)", None),
     V("C18", "jssp-durations-floor-of-rand", _JG9, "        proc_times = torch.randint(\n            self.min_processing_time,\n            self.max_processing_time + 1,\n            size=(*bs, self.num_mas, n_ops_max),\n        )", "        proc_times = (torch.rand((*bs, self.num_mas, n_ops_max)) * self.max_processing_time).floor() + self.min_processing_time", "C18.w"),
 ]
+
+# ---- round 10 (half round)
+_L2P = "rl4co/models/zoo/l2d/policy.py"
+_MTE10 = R + "mtvrp/env.py"
+CORPUS += [
+    V("C01", "sdvrp-whole-demand-after-the-depot", _SD, "        delivered_demand = torch.min(\n            selected_demand, td[\"vehicle_capacity\"] - td[\"used_capacity\"]\n        )", "        delivered_demand = torch.where(\n            td[\"current_node\"] == 0,\n            selected_demand,\n            torch.min(selected_demand, td[\"vehicle_capacity\"] - td[\"used_capacity\"]),\n        )", "C01.j"),
+    V("C05", "pctsp-depot-prize-appended-at-the-end", _PCT7, "        real_prize_with_depot = torch.cat(\n            [torch.zeros_like(real_prize[..., :1]), real_prize], dim=-1\n        )", "        real_prize_with_depot = F.pad(real_prize, (0, 1), mode=\"constant\", value=0)", "C05.m"),
+    V("C05", "eq-pctsp-depot-prize-padded-in-front", _PCT7, "        real_prize_with_depot = torch.cat(\n            [torch.zeros_like(real_prize[..., :1]), real_prize], dim=-1\n        )", "        real_prize_with_depot = F.pad(real_prize, (1, 0), mode=\"constant\", value=0)", None),
+    V("C06", "sdvrp-step-overwrites-the-demand-field", _SD, '                "demand_with_depot": demand_with_depot,\n                "current_node": current_node,', '                "demand": demand_with_depot[..., 1:],\n                "demand_with_depot": demand_with_depot,\n                "current_node": current_node,', "C06.x"),
+    V("C11", "l2d-entropy-of-the-raw-logits", _L2P, "        dist_entropys = Categorical(logprobs.exp()).entropy()\n\n        return action_logprobs, value_pred, dist_entropys", "        dist_entropys = Categorical(logits=logits).entropy()\n\n        return action_logprobs, value_pred, dist_entropys", "C11.m"),
+    V("C11", "eq-l2d-entropy-from-logits-of-the-processed", _L2P, "        dist_entropys = Categorical(logprobs.exp()).entropy()\n\n        return action_logprobs, value_pred, dist_entropys", "        dist_entropys = Categorical(logits=logprobs).entropy()\n\n        return action_logprobs, value_pred, dist_entropys", None),
+    V("C19", "jssp-file-list-in-a-default-argument", _JG9, "    def list_files(path):\n        files = [", "    def list_files(path, files=[]):\n        files += [", "C19.k"),
+    V("C19", "fjsp-pad-width-from-the-zero-based-index", _FPP, "    width = max(4, len(str(len(instances))))", "    width = max(4, len(str(len(instances) - 1)))", "C19.i"),
+]
